@@ -98,6 +98,17 @@ class Family:
                         self.D[(0, j)] = ds
         self.ok = True
 
+    def generality(self) -> str:
+        """what one run over this family stands for: the free symbols of the common ancestor's id form"""
+        names = {"o": "face", "seg": "segment", "S": "curve position"}
+        free = sorted({names.get(sy.name.rstrip("0123456789"), sy.name) for sy in self.G.syms()}) if isinstance(self.G, Lin) else []
+        anc = "the world cell" if self.r - 2 < 0 else f"a cell of resolution {self.r - 2}"
+        if self.r - 2 < 0:
+            return "family under the world cell: face 0 and its cells"
+        fixed = f"face {self.face}" if self.face is not None and "face" not in free else ""
+        return (f"family under {anc}" + (f" on {fixed}" if fixed else "") +
+                (f"; symbolic: {', '.join(free)}" if free else "; no free symbol (one concrete family)"))
+
     # names:  ('G',)  ('P', a)  ('c', a, j)  ('d', a, j, m)
     def form(self, name) -> Lin:
         if name[0] == "G":
@@ -186,6 +197,10 @@ def scenarios(f: Family) -> List[Tuple[str, List[tuple]]]:
             out.append(("the children of a MIDDLE child plus its siblings",
                         [("P", a) for a in range(nP) if a != mid] + [("c", mid, j) for j in range(len(f.C[mid]))]))
             out.append(("two complete groups and a single cell", grp0 + [("c", 1, j) for j in range(len(f.C[1]))] + [("c", 2, 0)]))
+    out.append(("a cell together with its own first child (overlapping input)", [("P", 0), grp0[0]]))
+    out.append(("a cell together with one of its other children (overlapping input)", [grp0[-1], ("P", 0)]))
+    if f.r - 2 >= 0:
+        out.append(("a cell, its first child and that child's first child (overlapping input)", [("G",), ("P", 0), grp0[0]]))
     if (0, 1) in f.D and (0, 2) in f.D and k == 4:
         out.append(("first and last member with one finer descendant of each middle member between them",
                     [grp0[0], ("d", 0, 1, 0), ("d", 0, 2, 0), grp0[3]]))
@@ -251,16 +266,17 @@ def run(ob, su, want_prefix: str) -> Dict[str, int]:
                     break
                 before_nm = stats["not_modelled"]
                 stats["scenarios"] += 1
-                tag = (f"a5.core.compact.compact on {title} (cells of resolution {r}, " +
-                       (f"face {face}, segment / position symbolic)" if face is not None else "face / segment / position symbolic)"))
+                tag = f"a5.core.compact.compact on {title} (cells of resolution {r}, {fam.generality()})"
                 try:
                     outs = _run_fn(interp, "compact", lambda: [ListV([Seg(fam.form(nm)) for nm in names])])
                 except (Budget, _Unmodelled, RecursionError) as e:
                     stats["not_modelled"] += 1
+                    stats.setdefault("reasons", []).append(f"{type(e).__name__}: {e}"[:200])
                     streak += 1
                     continue
                 if len(outs) != 1 or outs[0].state.path:
                     stats["not_modelled"] += 1
+                    stats.setdefault("reasons", []).append(f"{len(outs)} outcomes; first path: " + "; ".join(str(c) for c, _t, _w in outs[0].state.path[:2])[:160] if outs else "no outcome")
                     streak += 1
                     continue
                 o = outs[0]
@@ -271,6 +287,7 @@ def run(ob, su, want_prefix: str) -> Dict[str, int]:
                 res = _concrete(o.value)
                 if res is None:
                     stats["not_modelled"] += 1
+                    stats.setdefault("reasons", []).append(f"result not known element by element: {o.value!r}"[:200])
                     continue
                 got = [fam.name_of(x) for x in res]
                 if any(g is None for g in got):
@@ -350,15 +367,56 @@ def run_uncompact(ctx, su) -> Dict[str, int]:
                 ("cells of three resolutions, interleaved", [a, P1, c], r + 1),
                 ("fine, coarse, fine", [c, P0, a], r),
                 ("coarse cell after its own nephew", [c, P0], r + 1),
+                ("a cell, another cell, the first cell again", [a, b, a], r + 1),
+                ("a cell, a coarser cell, the first cell again", [a, P1, a], r),
             ]
+            if ("d", 0, 1, 0) in [nm for nm in fam.all_names()]:
+                d = ("d", 0, 1, 0)
+                cases += [
+                    ("resolutions r, r+1, r-1 in that order", [c, d, P1], r + 1),
+                    ("resolutions r+1, r-1, r in that order", [d, P1, c], r + 1),
+                    ("resolutions r+1, r+1, r-1", [d, ("d", 0, 1, 1), P1], r + 1),
+                ]
+            # requests that must raise: a cell finer than the target (the statement: "raises and returns nothing")
+            must_raise = [
+                ("a cell one level finer than the target", [a], r - 1),
+                ("a coarse cell followed by a cell finer than the target", [P0, a], r - 1),
+                ("a cell of resolution r with target -1", [a], -1),
+                ("a cell of resolution r with target -2", [a], -2),
+            ]
+            cases += [(t_ + " (must raise)", n_, tt_) for t_, n_, tt_ in must_raise]
             for title, names, t in cases:
                 if streak >= 6:
                     break
                 stats["scenarios"] += 1
-                tag = f"a5.core.compact.uncompact on {title} (resolutions {sorted({fam.r - 1 if n[0] == 'P' else fam.r for n in names})} -> {t}, face / segment / position symbolic)"
+                def res_of(n_):
+                    return fam.r - 1 if n_[0] == "P" else (fam.r + 1 if n_[0] == "d" else fam.r)
+                tag = f"a5.core.compact.uncompact on {title} (resolutions {[res_of(n) for n in names]} -> {t}, {fam.generality()})"
+                if title.endswith("(must raise)"):
+                    try:
+                        outs = _run_fn(interp, "uncompact", lambda: [ListV([Seg(fam.form(nm)) for nm in names]), Lin(t)])
+                    except (Budget, _Unmodelled, RecursionError) as e:
+                        stats["not_modelled"] += 1
+                        stats.setdefault("reasons", []).append(f"{type(e).__name__}: {e}"[:200])
+                        streak += 1
+                        continue
+                    from .absint import opaque_path
+                    if not outs or any(opaque_path(o.state) for o in outs):
+                        stats["not_modelled"] += 1
+                        streak += 1
+                        continue
+                    stats["decided"] += 1
+                    streak = 0
+                    rets = [o for o in outs if o.kind == "return"]
+                    if rets and len(rets) == len(outs) and not any(o.state.path for o in outs):
+                        ctx.bad("C10.7", f"{tag}: returns a list instead of raising", where,
+                                f"input {_show(names)}, target {t}: a cell finer than the target must be refused")
+                    elif not rets:
+                        ctx.ok("C10.7", f"{tag}: raises", where, f"{outs[0].value}")
+                    continue
                 want: Optional[List[Lin]] = []
                 for nm in names:
-                    res_nm = fam.r - 1 if nm[0] == "P" else fam.r
+                    res_nm = res_of(nm)
                     if res_nm == t:
                         want.append(fam.form(nm))
                         continue
@@ -373,12 +431,14 @@ def run_uncompact(ctx, su) -> Dict[str, int]:
                     continue
                 try:
                     outs = _run_fn(interp, "uncompact", lambda: [ListV([Seg(fam.form(nm)) for nm in names]), Lin(t)])
-                except (Budget, _Unmodelled, RecursionError):
+                except (Budget, _Unmodelled, RecursionError) as e:
                     stats["not_modelled"] += 1
+                    stats.setdefault("reasons", []).append(f"{type(e).__name__}: {e}"[:200])
                     streak += 1
                     continue
                 if len(outs) != 1 or outs[0].state.path:
                     stats["not_modelled"] += 1
+                    stats.setdefault("reasons", []).append(f"{len(outs)} outcomes; first path: " + "; ".join(str(c) for c, _t, _w in outs[0].state.path[:2])[:160] if outs else "no outcome")
                     streak += 1
                     continue
                 o = outs[0]
@@ -390,6 +450,7 @@ def run_uncompact(ctx, su) -> Dict[str, int]:
                 got = _concrete_result(o.value)
                 if got is None:
                     stats["not_modelled"] += 1
+                    stats.setdefault("reasons", []).append(f"result not known element by element: {o.value!r}"[:200])
                     streak += 1
                     continue
                 stats["decided"] += 1
